@@ -24,6 +24,11 @@ exports on the writer of any stream; dates / uncertainties / values at their bou
 about like texts; documents whose names and texts are words of the query notations; the list of searched values
 in the string form; Python objects as dictionary values; compare also demands library rows == directEval'
 (Model/QuerySpec.lean, the specification of C20.query_sound_complete_full) inside its hypotheses.
+Round 6: stream pedit (model-tied histories in which the caller CHANGES the parameter dictionary it keeps between two
+searches of one finder - in the inner collections, by rebinding keys, by emptying and refilling - and hands it over
+again as it is / inside a new outer dictionary / as a copy / as a string; calls that fail while the queries are built,
+the graph left out or set on the finder, the graph object added to in between); creator: one dictionary object emptied
+and refilled for query after query. Model/Finder.lean: the finder object (C20.search_answers_the_call ...).
 """
 import itertools
 import os
@@ -598,10 +603,15 @@ class C20(fw.Check):
         "repository_query_matches",
         "query_tables_ok2", "direct_spec_extends", "query_sound_complete_ids",
         "query_sound_complete_values", "query_sound_complete_full", "match_search_sound_complete",
-        "match_search_reports_exact", "fuzzy_search_reports_exact"]]
+        "match_search_reports_exact", "fuzzy_search_reports_exact",
+        # round 6 (Model/Finder.lean: the finder object over histories of calls)
+        "search_answers_the_call", "graph_kept_by_any_call", "search_without_graph_uses_last_passed",
+        "search_reports_exact_after_any_history"]]
     trusted_base = [
         "Lean 4.33.0 kernel; axioms propext, Classical.choice, Quot.sound only (audited per theorem)",
         "hand-written models lean/OdmlModel/Model/Query.lean, Model/QuerySpec.lean and Model/Rdf.lean, tied to /repo by this run",
+        "Model/Finder.lean (the finder object): its answer is findRows of the call by C20.search_answers_the_call; the "
+        "library's answers over histories are tied to findRows per search (stream pedit), the kept state is not driven",
         "harness/extract_tables.py (format._rdf_map tables regenerated into Lean on every run)",
         "Driver/C20.lean, Driver/RdfCodec.lean JSON glue; harness/framework.py, harness/c20.py, harness/c10.py",
         "rdflib SPARQL engine: basic graph pattern matching with RDF term equality, FILTER with STR / STRSTARTS / EXISTS "
@@ -632,7 +642,10 @@ class C20(fw.Check):
             "export tied to the model), earlier exports on every writer, dates from year 1 to 9999, uncertainties "
             "and values with exponents / signs / many digits / ten and more values, names and texts that are words "
             "of the query notations, value lists in the string form, Python objects in the dictionary, lone "
-            "surrogates (oracle-only). Non-trivial = at least "
+            "surrogates (oracle-only). Round 6: histories in which the caller edits the dictionary it keeps (pairs / terms / "
+            "names / kinds / searched values replaced, added, removed, reordered; in place, rebound, refilled) between "
+            "searches of one finder, failed calls in between, graph left out / set on the finder / added to. "
+            "Non-trivial = at least "
             "one combination with a hit; distinct = distinct canonical JSON of the case.")
     quick_n = 128
     case_timeout = 90
@@ -837,6 +850,187 @@ class C20(fw.Check):
             if case["mode"] == "match" and i % 6 == 3:
                 # the bracket shape goes through the string form between two uses of the caller's dictionary
                 steps.insert(1, dict(steps[0], params="str", pre=None))
+            case["steps"] = steps
+            cases.append(case)
+        return cases
+
+    # round 6: how the caller changes the dictionary it keeps (all of them leave the outer dictionary the object
+    # it was): the collections inside are changed where they are (items assigned, appended, deleted; the list of
+    # searched values of a value pair too), the keys are bound to new collections, the dictionary is emptied
+    # and filled again
+    EDIT_TECHS = ["deep", "deep", "deep", "rebind", "rebind", "clear"]
+    # ... and what is handed to the search afterwards: the dictionary itself, a new dictionary around the same
+    # inner collections, a copy, the string form of what the dictionary says now
+    EDIT_PASS = ["same", "same", "same", "same", "inner", "copy", "str"]
+
+    def edit_match(self, rng, pairs, present):
+        """one change of the match-mode content -> (new pairs, what was done); `present`: (kind, attribute,
+        text) carried by the documents"""
+        pairs = [dict(p, vs=list(p["vs"])) for p in pairs]
+        carried = lambda k, a: sorted(set(t[2] for t in present if t[0] == k and t[1] == a))
+        ops = ["next", "next", "next", "value", "attr", "append", "append", "remove", "remove", "swap", "none"]
+        for _try in range(8):
+            op = rng.choice(ops)
+            i = rng.randrange(len(pairs))
+            p = pairs[i]
+            is_vals = p["a"] == "value" and p["k"] == "Prop"
+            if is_vals and op in ("next", "value", "attr"):
+                # the list of searched values: one more, one less, another one
+                vs = p["vs"]
+                how = rng.choice(["more", "less", "other"])
+                if how == "less" and len(vs) > 1:
+                    del vs[rng.randrange(len(vs))]
+                elif how == "other" and vs:
+                    vs[rng.randrange(len(vs))] = rng.choice(["20", "25", "x", "y z", "21", "1.5"])
+                else:
+                    vs.insert(rng.randrange(len(vs) + 1), rng.choice(["20", "25", "x", "y z", "21"]))
+                return pairs, "values"
+            if op == "next":
+                # the same question about the next name: another text that the attribute carries somewhere
+                others = [v for v in carried(p["k"], p["a"]) if v != p["v"]]
+                if not others:
+                    continue
+                p["v"] = rng.choice(others)
+                return pairs, op
+            if op == "value":
+                p["v"] = rng.choice(NAMES + TYPES + TEXTS[:12] + UNITS)
+                return pairs, op
+            if op == "attr":
+                mine = [t for t in present if t[0] == p["k"]]
+                if mine and rng.random() < 0.7:
+                    _k, p["a"], p["v"] = rng.choice(mine)
+                else:
+                    p["a"] = rng.choice(STR_ATTRS[p["k"]])
+                return pairs, op
+            if op == "append" and len(pairs) < 4:
+                if present and rng.random() < 0.8:
+                    k, a, v = rng.choice(present)
+                else:
+                    k = rng.choice(KEYS)
+                    a, v = rng.choice(STR_ATTRS[k]), rng.choice(NAMES + TYPES)
+                pairs.insert(rng.randrange(len(pairs) + 1), {"k": k, "a": a, "v": v, "vs": []})
+                return pairs, op
+            if op == "remove" and len(pairs) > 1:
+                del pairs[i]
+                return pairs, op
+            if op == "swap" and len(pairs) > 1:
+                # the same pairs in another order: the same question
+                j = rng.randrange(len(pairs))
+                pairs[i], pairs[j] = pairs[j], pairs[i]
+                return pairs, op
+            if op == "none":
+                return pairs, op
+        return pairs, "none"
+
+    def edit_fuzzy(self, rng, attrs, search, present):
+        """one change of the fuzzy-mode content (attribute names per kind, search terms)"""
+        attrs = dict((k, list(v)) for k, v in attrs.items())
+        search = list(search)
+        count = lambda: sum(len(v) for v in attrs.values())
+        texts = sorted(set(t[2] for t in present if t[0] in attrs)) or NAMES
+        ops = ["term+", "term+", "term=", "term=", "term-", "attr+", "attr-", "attr=", "kind-", "swap", "none"]
+        for _try in range(8):
+            op = rng.choice(ops)
+            if op == "term+" and len(search) < 3 and count() <= 2:
+                search.insert(rng.randrange(len(search) + 1),
+                              rng.choice(texts) if rng.random() < 0.75 else rng.choice(NAMES + TEXTS[:12]))
+                return attrs, search, op
+            if op == "term=":
+                search[rng.randrange(len(search))] = rng.choice(texts) if rng.random() < 0.75 else rng.choice(NAMES + TYPES)
+                return attrs, search, op
+            if op == "term-" and len(search) > 1:
+                del search[rng.randrange(len(search))]
+                return attrs, search, op
+            if op == "attr+" and count() < (3 if len(search) < 3 else 2):
+                k = rng.choice(KEYS)
+                cand = [a for a in STR_ATTRS[k] if a not in attrs.get(k, [])]
+                if not cand:
+                    continue
+                attrs.setdefault(k, []).append(rng.choice(cand))
+                return attrs, search, op
+            if op == "attr-" and count() > 1:
+                k = rng.choice(sorted(attrs))
+                del attrs[k][rng.randrange(len(attrs[k]))]
+                if not attrs[k]:
+                    del attrs[k]
+                return attrs, search, op
+            if op == "attr=":
+                k = rng.choice(sorted(attrs))
+                cand = [a for a in STR_ATTRS[k] if a not in attrs[k]]
+                if not cand:
+                    continue
+                attrs[k][rng.randrange(len(attrs[k]))] = rng.choice(cand)
+                return attrs, search, op
+            if op == "kind-" and len(attrs) > 1:
+                del attrs[rng.choice(sorted(attrs))]
+                return attrs, search, op
+            if op == "swap" and len(search) > 1:
+                search.reverse()
+                return attrs, search, op
+            if op == "none":
+                return attrs, search, op
+        return attrs, search, "none"
+
+    def gen_pedit(self, rng, n):
+        """Round 6 - histories in which the caller CHANGES what it keeps between two searches (model-tied: every
+        search is one `find` of the model for what the dictionary says and the graph holds at that moment).
+        One parameter dictionary: pairs replaced ("the same question about the next name"), removed, added,
+        reordered, a value appended to the list of searched values, a term / an attribute name / a kind added
+        or taken away - done to the inner collections where they are, by binding a key to a new collection,
+        by emptying and refilling the dictionary; handed over again as it is, inside a new outer dictionary,
+        as a copy, in the string form. One finder for all searches (mostly), with another search / a refused
+        call / a call that fails while the queries are built in between, the graph passed again, left out
+        (the graph of the previous call) or set on the finder. One graph object: the export of another
+        document set is added to it between two searches."""
+        cases = []
+        for i in range(n):
+            sets = [gen_docs(rng) for _ in range(rng.choice([1, 1, 2]))]
+            if i % 7 == 5:
+                for specs in sets:
+                    wordify(rng, specs, "fuzzy" if i % 3 == 2 else "match")
+            both = [d for s in sets for d in s]
+            present = values_in_docs(both)
+            opts = gen_opts(rng)
+            case = {"stream": "pedit", "sets": sets, "mode": "fuzzy" if i % 3 == 2 else "match",
+                    "opts": {"shape": rng.choice(["tuples", "lists", "lists", "tuple_outer"]), "korder": opts["korder"],
+                             "sorder": opts["sorder"], "words": opts["words"], "empty_kinds": opts["empty_kinds"],
+                             "ints": opts["ints"]},
+                    "writers": [gen_writer(rng, specs) for specs in sets]}
+            if case["mode"] == "fuzzy":
+                attrs, search = self.gen_fuzzy(rng, both, limit=2)
+                content = {"attrs": attrs, "search": search}
+            else:
+                pairs = self.small_pairs(rng, both, 3)
+                if i % 6 == 1:
+                    pairs = with_bracket_shape(bracket_shape(rng, both), pairs, 1)
+                elif i % 6 == 4:
+                    have = typed_in_docs(both)["values"]
+                    vs = rng.sample(have[0], min(len(have[0]), 2)) if have else ["20"]
+                    pairs = [{"k": "Prop", "a": "value", "v": "", "vs": vs}] + pairs[:2]
+                content = {"pairs": pairs}
+            steps, edited = [], False
+            for si in range(rng.choice([2, 3, 3, 4])):
+                what = None
+                if si:
+                    if case["mode"] == "fuzzy":
+                        a, s, what = self.edit_fuzzy(rng, content["attrs"], content["search"], present)
+                        content = {"attrs": a, "search": s}
+                    else:
+                        p, what = self.edit_match(rng, content["pairs"], present)
+                        content = {"pairs": p}
+                    edited = edited or what != "none"
+                step = dict(content, g=rng.randrange(len(sets)), what=what,
+                            finder=rng.choice(["same", "same", "same", "same", "new", "ctor"]),
+                            tech=rng.choice(self.EDIT_TECHS), keep_empty=rng.random() < 0.3,
+                            graph=rng.choice(["pass", "pass", "pass", "omit", "attr"]),
+                            pre=rng.choice([None, None, None, None, "mode", "both", "neither", "other", "failed"]))
+                step["pass"] = rng.choice(self.EDIT_PASS) if si else "same"
+                # the graph object itself changes: the export of the other set is added to it
+                step["gadd"] = (step["g"] + 1) % len(sets) if si and len(sets) > 1 and rng.random() < 0.2 else None
+                steps.append(step)
+            # the dictionary the caller keeps is handed over at least twice, after a change
+            steps[-1]["pass"] = rng.choice(["same", "same", "inner"])
+            steps[-1]["finder"] = steps[0]["finder"] = "same"
             case["steps"] = steps
             cases.append(case)
         return cases
@@ -1200,7 +1394,10 @@ class C20(fw.Check):
                 steps.append({"pairs": self.small_pairs(rng, docs, 3), "entry": rng.choice(["dict", "str", "str"]),
                               "parser": rng.choice(["new", "new", "same"]), "repeat": rng.random() < 0.3,
                               "opts": {"shape": opts["shape"], "korder": opts["korder"], "sorder": opts["sorder"],
-                                       "words": opts["words"]}})
+                                       "words": opts["words"]},
+                              # round 6: the dictionary is the one the caller used for the queries before, emptied
+                              # and filled with the pairs of this query (a new creator every time)
+                              "shared": rng.random() < 0.4})
             if _i % 8 == 3:
                 steps[-1]["pairs"] = with_bracket_shape(bracket_shape(rng, docs), steps[-1]["pairs"], 1)
                 steps[-1]["entry"] = "str"
@@ -1245,6 +1442,7 @@ class C20(fw.Check):
                               "how": how, "opts": gen_opts(rng, docs)})
         cases += self.gen_reuse(rng, 44 if tier == "quick" else 400)
         cases += self.gen_whist(rng, 30 if tier == "quick" else 400)
+        cases += self.gen_pedit(rng, 30 if tier == "quick" else 450)
         cases += self.gen_sets(rng, 80 if tier == "quick" else 1000)
         cases += self.gen_creator(rng, 40 if tier == "quick" else 500)
         m = 150 if tier == "quick" else 3000
@@ -1310,6 +1508,8 @@ class C20(fw.Check):
             return self.impl_creator(case)
         if st == "whist":
             return self.impl_whist(case)
+        if st == "pedit":
+            return self.impl_pedit(case)
         return self.impl_find(case)
 
     @staticmethod
@@ -1755,6 +1955,136 @@ class C20(fw.Check):
             obs["steps"].append(o)
         return obs
 
+    @staticmethod
+    def change_in_place(d, new, tech, keep_empty=False):
+        """The caller makes the dictionary `d` say what the new dictionary `new` says; `d` stays the object it
+        is. deep: the lists inside are changed where they are (a pair that is a list gets its new text, the
+        list of searched values of a value pair its new members, the list of pairs / names / terms its new
+        items); rebind: the keys are bound to the new collections; clear: emptied and filled again. A kind
+        that is not asked about any more goes away or stays with nothing in it."""
+        if tech == "clear":
+            d.clear()
+            d.update(new)
+            return
+        for k in [k for k in d if k not in new]:
+            if keep_empty and isinstance(d[k], list) and k != "Search":
+                del d[k][:]
+            elif keep_empty and k != "Search":
+                d[k] = ()
+            else:
+                del d[k]
+        for k, v in new.items():
+            old = d.get(k)
+            if tech != "deep" or not isinstance(old, list):
+                d[k] = v
+                continue
+            items = []
+            for j, item in enumerate(v):
+                mine = old[j] if j < len(old) else None
+                if isinstance(mine, (list, tuple)) and isinstance(item, (list, tuple)) and mine[0] == item[0]:
+                    if isinstance(mine[1], list) and isinstance(item[1], (list, tuple)):
+                        mine[1][:] = list(item[1])          # the list of searched values, where it is
+                        items.append(mine)
+                        continue
+                    if isinstance(mine, list):
+                        mine[1] = item[1]                   # the pair, where it is
+                        items.append(mine)
+                        continue
+                items.append(item)
+            old[:] = items
+
+    def content_of(self, case, step, docs):
+        """what the dictionary has to say at a step -> (mode, pairs, plain fuzzy dictionary, string, string usable)"""
+        sub = dict(case, **dict((k, step[k]) for k in ("pairs", "attrs", "search") if k in step))
+        return self.query_of(sub, docs)
+
+    def impl_pedit(self, case):
+        """searches of one caller who changes the dictionary (and the graph) it keeps in between; every search
+        is observed on its own and judged against what the dictionary says and the graph holds at that moment"""
+        import warnings
+        from odml.rdf.fuzzy_finder import FuzzyFinder
+        from odml.tools.rdf_converter import RDFWriter
+        warnings.simplefilter("ignore")
+        opts = case.get("opts") or {}
+        docsets = [self.build_set(specs) for specs in case["sets"]]
+        writers = case.get("writers") or [None] * len(docsets)
+        graphs = [self.build_writer(ds, w).convert_to_rdf() for ds, w in zip(docsets, writers)]
+        held = [[i] for i in range(len(docsets))]          # the document sets a graph holds the export of
+        snaps = [[c10.snap_doc(d) for d in ds] for ds in docsets]
+        obs = {"steps": []}
+        shared = None
+        kept = {"finder": None, "g": None}
+        for step in case["steps"]:
+            gi = step["g"] % len(graphs)
+            if step.get("gadd") is not None and step["gadd"] % len(graphs) != gi:
+                oj = step["gadd"] % len(graphs)
+                for triple in RDFWriter(docsets[oj], rdf_subclassing=False).convert_to_rdf():
+                    graphs[gi].add(triple)
+                if oj not in held[gi]:
+                    held[gi].append(oj)
+            mode, pairs, plain, q_str, str_ok = self.content_of(case, step, docsets[0])
+            new = self.params_of(mode, pairs, plain, opts)
+            if shared is None:
+                shared = new
+            else:
+                self.change_in_place(shared, new, step.get("tech", "deep"), step.get("keep_empty"))
+            how = step.get("pass", "same")
+            if how == "str" and not str_ok:
+                how = "copy"
+            obj = shared if how == "same" else dict(shared) if how == "inner" else self.params_of(mode, pairs, plain, opts)
+            kw = {"q_str": q_str} if how == "str" else {"q_params": obj}
+            if step["finder"] == "same":
+                if kept["finder"] is None:
+                    kept["finder"] = FuzzyFinder()
+                ff = kept["finder"]
+            elif step["finder"] == "ctor":
+                ff = FuzzyFinder(graph=graphs[gi])
+            else:
+                ff = FuzzyFinder()
+            # the graph: passed, set on the finder, or left out - then it is the graph of the finder's
+            # previous call (only a finder that has been given one can be asked that way)
+            gpass = step.get("graph", "pass")
+            if step["finder"] == "ctor":
+                gkw = {}
+            elif gpass == "omit" and step["finder"] == "same" and kept["g"] is not None:
+                gi = kept["g"]
+                gkw = {}
+            elif gpass == "attr":
+                ff.graph = graphs[gi]
+                gkw = {}
+            else:
+                gkw = {"graph": graphs[gi]}
+            if step["finder"] == "same":
+                kept["g"] = gi
+            o = {"g": gi, "pass": how, "finder": step["finder"], "pairs": pairs, "mode": mode,
+                 "docs": [s for j in held[gi] for s in snaps[j]]}
+            try:
+                pre = step.get("pre")
+                if pre == "mode":
+                    ff.find(mode="exact", **dict(kw, **gkw))
+                elif pre == "both":
+                    ff.find(mode=mode, q_str=q_str or "x", q_params=obj, **gkw)
+                elif pre == "neither":
+                    ff.find(mode=mode, **gkw)
+                elif pre == "failed":
+                    # a call that fails while its queries are built (a pair with three members)
+                    ff.find(mode="match", q_params={"Sec": [("name", "a", "b"), ("type", "t1")]}, **gkw)
+                elif pre == "other" and mode == "match":
+                    ff.find(mode="fuzzy", q_params={"Doc": ["author"], "Sec": ["name", "type"], "Search": ["a", "me"]}, **gkw)
+                elif pre == "other":
+                    ff.find(mode="match", q_str="doc(author:me) sec(name:a) prop(name:b)", **gkw)
+            except Exception:
+                pass
+            try:
+                text = ff.find(mode=mode, **dict(kw, **gkw))
+                o["blocks"] = self.blocks_of(text)
+                o["executed"] = self.executed_of(ff)
+            except Exception as exc:
+                o["raised"] = fw.exc_name(exc)
+            o["expected"] = self.expected([d for j in held[gi] for d in docsets[j]], pairs)
+            obs["steps"].append(o)
+        return obs
+
     def impl_whist(self, case):
         """one writer, several exports, the documents edited in between; the export of the moment is searched
         and judged against the documents of that moment"""
@@ -1798,6 +2128,7 @@ class C20(fw.Check):
         graph = self.build_writer(docs, case.get("writer")).convert_to_rdf()
         obs = {"steps": []}
         shared_parser = None
+        shared_dict = {}
 
         def rows_of(prepared):
             rows = []
@@ -1811,7 +2142,12 @@ class C20(fw.Check):
             entry = step["entry"] if string_safe(pairs) else "dict"
             o = {"pairs": pairs, "entry": entry, "parser": step["parser"] if entry == "str" else None}
             try:
-                if entry == "dict":
+                if entry == "dict" and step.get("shared"):
+                    shared_dict.clear()
+                    shared_dict.update(to_params(pairs, opts))
+                    creator = QueryCreator(shared_dict)
+                    args = ()
+                elif entry == "dict":
                     creator = QueryCreator(to_params(pairs, opts))
                     args = ()
                 else:
@@ -1912,6 +2248,10 @@ class C20(fw.Check):
         if st == "reuse":
             # the model has no caller objects: every search of the history is one `find` of the model
             return [{"op": "find", "docs": docs, "pairs": obs["pairs"]} for docs in obs["sets"]]
+        if st == "pedit":
+            # the model is asked about what the caller's dictionary says and the graph holds at the moment of
+            # each call (a question that comes again in one history is asked once)
+            return [{"op": "find", "docs": docs, "pairs": pairs} for docs, pairs in self.pedit_questions(obs)[0]]
         if st == "whist":
             # ... and no writer object: the export that is searched is the export of the documents as they
             # are at that moment
@@ -1921,6 +2261,18 @@ class C20(fw.Check):
             reqs.append({"op": "fuzzy", "doc": case["attrs"].get("Doc", []), "sec": case["attrs"].get("Sec", []),
                          "prop": case["attrs"].get("Prop", []), "search": case["search"]})
         return reqs
+
+    @staticmethod
+    def pedit_questions(obs):
+        """-> ([(docs, pairs)] without repetitions, [index of the question of every step])"""
+        questions, keys, which = [], [], []
+        for o in obs["steps"]:
+            k = fw.canon([o["docs"], o["pairs"]])
+            if k not in keys:
+                keys.append(k)
+                questions.append((o["docs"], o["pairs"]))
+            which.append(keys.index(k))
+        return questions, which
 
     @staticmethod
     def mrow(r):
@@ -1948,6 +2300,11 @@ class C20(fw.Check):
         if st == "reuse":
             for i, o in enumerate(obs["steps"]):
                 out += ["step %d: %s" % (i, d) for d in self.compare_find(answers[o["g"]], o)]
+            return out
+        if st == "pedit":
+            which = self.pedit_questions(obs)[1]
+            for i, o in enumerate(obs["steps"]):
+                out += ["search %d: %s" % (i, d) for d in self.compare_find(answers[which[i]], o)]
             return out
         if st == "whist":
             for i, o in enumerate(obs["steps"]):
@@ -2037,7 +2394,8 @@ class C20(fw.Check):
             for i, o in enumerate(obs["steps"]):
                 out += ["step %d: %s" % (i, f) for f in self.judge(obs["pairs"], o)]
             return out
-        if case["stream"] == "whist":
+        if case["stream"] in ("whist", "pedit"):
+            # (pedit: every search is judged against the pairs the dictionary holds when it is called)
             out = []
             for i, o in enumerate(obs["steps"]):
                 out += ["search %d: %s" % (i, f) for f in self.judge(o["pairs"], o)]
@@ -2170,9 +2528,9 @@ class C20(fw.Check):
         if st == "reuse":
             hit = any(o.get("blocks") for o in obs.get("steps", []))
             return ("reuse:%s:%s" % (case.get("mode"), "hit" if hit else "miss"), hit)
-        if st == "whist":
+        if st in ("whist", "pedit"):
             hit = any(o.get("blocks") for o in obs.get("steps", []))
-            return ("whist:%s:%s" % (case.get("mode"), "hit" if hit else "miss"), hit)
+            return ("%s:%s:%s" % (st, case.get("mode"), "hit" if hit else "miss"), hit)
         if st == "creator":
             hit = any(o.get("rows") for o in obs.get("steps", []))
             return ("creator:%s" % ("hit" if hit else "miss"), hit)
